@@ -284,6 +284,10 @@ func (g *gen) mstName() string {
 
 // selectText builds a statement with the clauses the grammar knows after the condition.
 func (g *gen) selectText(depth int, wantCond *string) string {
+	return g.selectTextAt(depth, wantCond, true)
+}
+
+func (g *gen) selectTextAt(depth int, wantCond *string, top bool) string {
 	var b strings.Builder
 	b.WriteString("SELECT ")
 	switch g.r.Intn(4) {
@@ -296,14 +300,14 @@ func (g *gen) selectText(depth int, wantCond *string) string {
 	default:
 		b.WriteString("count(" + g.pick(plainIdents) + ")")
 	}
-	if depth == 0 && g.r.Chance(6) {
+	if top && g.r.Chance(6) {
 		g.feat("stmt:into")
 		b.WriteString(" INTO " + g.pick([]string{"dst", "db0.rp.dst", "\"my dst\""}))
 	}
 	b.WriteString(" FROM ")
 	if depth > 0 && g.r.Chance(30) {
 		g.feat("stmt:subquery")
-		b.WriteString("(" + g.selectText(depth-1, nil) + ")")
+		b.WriteString("(" + g.selectTextAt(depth-1, nil, false) + ")")
 		if g.r.Chance(40) {
 			b.WriteString(" AS " + g.pick([]string{"t1", "sub"}))
 		}
@@ -429,6 +433,11 @@ func runSource(c *hx.Ctx, g *gen) {
 	for _, s := range srcs {
 		var back influxql.Source
 		var perr error
+		if sq, ok := s.(*influxql.SubQuery); ok && stmtHasBigSet(sq.Statement) {
+			// Go map order: the printed text of a key set with several members is not canonical
+			c.Count("source:not-canonical-set")
+			continue
+		}
 		printed := s.String()
 		if p := hx.Safe(func() { back, perr = influxql.ParseSource(printed) }); p != "" {
 			c.Violation(line, "panic", "ParseSource: "+p+" text="+strconv.Quote(printed))
@@ -565,4 +574,14 @@ func runPool(c *hx.Ctx, g *gen) {
 			return
 		}
 	}
+}
+
+func stmtHasBigSet(st *influxql.SelectStatement) bool {
+	big := false
+	influxql.WalkFunc(st, func(n influxql.Node) {
+		if x, ok := n.(*influxql.SetLiteral); ok && len(x.Vals) >= 2 {
+			big = true
+		}
+	})
+	return big
 }
